@@ -117,6 +117,15 @@ fn check_mirror(ctx: &mut Ctx, mi: Mirror, s: &Step) -> Result<(), Violation> {
             case(),
         )?;
     }
+    // the single-move legality query, on the moves that would be legal but for the king's safety
+    // (interpositions and captures in double check, pinned pieces stepping off their line, ...)
+    for m in p.pseudo_moves() {
+        ctx.evals_add(1);
+        let (here, there) = (b.legal(bridge::mv(m)), mb.legal(bridge::mv(mi.mv(m))));
+        if here != there {
+            ctx.fail("mirror:legal-query", format!("{} mirror: legal({}) = {} but legal({}) = {} on the image", mi.name(), m.uci(), here, mi.mv(m).uci(), there), case())?;
+        }
+    }
     if b.status() != mb.status() {
         ctx.fail("mirror:status", format!("{} mirror: status {:?} vs {:?}", mi.name(), b.status(), mb.status()), case())?;
     }
@@ -199,7 +208,7 @@ pub fn run(cfg: &Cfg) -> i32 {
     engine::finish(
         report,
         EvidenceSpec {
-            rule: "cases = positions on golden and generated histories; each is mirrored (colour swap + rank flip always; file flip when neither it nor its start has castling rights) through BoardBuilder, and legal moves, status, checkers, mover's pinned pieces, every successor and the whole history played in parallel on the image are compared under the map. evaluations = positions + successors compared. Non-trivial = castling rights, en-passant target, check, promotion available, or >= 10 plies played in parallel; distinct = position fingerprints.".into(),
+            rule: "cases = positions on golden and generated histories; each is mirrored (colour swap + rank flip always; file flip when neither it nor its start has castling rights) through BoardBuilder, and legal moves, the legality query on every pseudo-legal move, status, checkers, mover's pinned pieces, every successor and the whole history played in parallel on the image are compared under the map. evaluations = positions + successors compared. Non-trivial = castling rights, en-passant target, check, promotion available, or >= 10 plies played in parallel; distinct = position fingerprints.".into(),
             assumptions: vec!["the mirror maps on squares/moves are the only trusted part; the oracle is the library itself on the image".into()],
             trusted_base: vec!["harness/src/props/c17.rs mirror maps".into(), "proptest 1.11".into()],
             exhaustive: None,
